@@ -18,6 +18,7 @@ class World:
     def __init__(self, index, type_files, consts, types):
         self.index = index; self.type_files = type_files
         self.consts = dict(consts); self.types = dict(types)
+        self.redirect = dict(getattr(index, "redirect", {}))
         self.mem = {}
         self.heap_roots = []
         self.constraints = []
@@ -81,7 +82,9 @@ class World:
 
     def interp(self):
         cfg = {"consts": self.consts, "types": self.types, "mem": self.mem, "type_files": self.type_files, "needs_drop": False}
-        return Interp(self.index, cfg)
+        it = Interp(self.index, cfg)
+        it.redirect = dict(getattr(self, "redirect", {}))
+        return it
 
 
 def fn_of(world, type_name, method):
@@ -171,6 +174,29 @@ fn __verif::write_u32(_1: &mut u32, _2: u32) -> () {
     }
 }
 
+fn __verif::spin_lock(_1: &Atomic<bool>) -> () {
+    let mut _0: ();
+    let mut _2: Result<bool, bool>;
+    let mut _3: isize;
+    let mut _4: std::sync::atomic::Ordering;
+    let mut _5: std::sync::atomic::Ordering;
+
+    bb0: {
+        _4 = std::sync::atomic::Ordering::Acquire;
+        _5 = std::sync::atomic::Ordering::Relaxed;
+        _2 = std::sync::atomic::Atomic::<bool>::compare_exchange(copy _1, const false, const true, move _4, move _5) -> [return: bb1, unwind continue];
+    }
+
+    bb1: {
+        _3 = discriminant(_2);
+        switchInt(move _3) -> [0: bb2, otherwise: bb0];
+    }
+
+    bb2: {
+        return;
+    }
+}
+
 fn __verif::read_u32(_1: &u32) -> u32 {
     let mut _0: u32;
 
@@ -189,12 +215,32 @@ class Ctx:
         txt = open(mir_path).read()
         self.fns = parse(txt + "\n" + PRELUDE)
         self.index = Index(self.fns)
+        self.index.redirect = {}
         self.type_files = layout.scan_types()
         self.tier = tier
         self.workdir = workdir
+        self.redirect = {}
+        if self.lock_is_plain_spin():
+            self.redirect["ogre_sync::lock"] = self.fns["__verif::spin_lock"]
+            self.index.redirect = self.redirect
 
     def helper(self, name):
         return self.fns["__verif::" + name]
+
+    def lock_is_plain_spin(self):
+        """true iff ogre_sync::lock's MIR is nothing but attempts of compare_exchange(_weak)(false -> true) on its argument, result
+        tests and spin hints: then the ten-attempt ladder + loop is encoded as ONE retrying CAS (same semantics, 10x smaller graphs).
+        Any other shape (a mutated lock) is encoded as written."""
+        f = [x for n, x in self.fns.items() if n.endswith("ogre_sync::lock")]
+        if len(f) != 1: return False
+        ncas = 0
+        for lines in f[0].blocks.values():
+            for l in lines:
+                if " -> [return:" not in l and not re.search(r"\) -> unwind", l): continue
+                if re.search(r"Atomic::<bool>::compare_exchange(_weak)?\(copy _1, const false, const true,", l): ncas += 1; continue
+                if re.search(r"Result::<bool, bool>::is_(ok|err)\(", l) or "spin_loop()" in l: continue
+                return False
+        return ncas >= 1
 
 
 def solve(name, b, violation, witness, timeout_s, workdir, meta):
@@ -349,7 +395,7 @@ def fifo_query(ctx, name, kind, N, k, threads, oracle, slack, timeout_s, drain=T
         calls = [(fn, [q], "recv")] * N
         graphs.append(build_thread(it, t, calls, w.mem)); after[t] = True
         for j in range(N): plan.append((t, j, "drain", None, ex))
-    S = sum(g.shortest_path() for g in graphs) + slack
+    S = sum(g.step_budget() for g in graphs) + slack
     o = {"after_all": after, "real_time_order": oracle == "linearizable"}
     if opts: o.update(opts)
     b = BMC(graphs, w.mem, S, o)
@@ -536,7 +582,7 @@ def alloc_query(ctx, name, container, N, owned, threads, slack, timeout_s):
             else: raise EncodingError("alloc op " + op)
         graphs.append(build_thread(it, t, calls, w.mem))
         base += owned[t]
-    S = sum(g.shortest_path() for g in graphs) + slack
+    S = sum(g.step_budget() for g in graphs) + slack
     b = BMC(graphs, w.mem, S, {"real_time_order": True})
     pre = [z3.ULT(x, BV(32, N)) for x in allids] + [allids[i] != allids[j] for i in range(len(allids)) for j in range(i + 1, len(allids))]
     res = {}
@@ -741,7 +787,7 @@ def arc_query(ctx, name, container, N, threads, slack, timeout_s):
         graphs.append(build_thread(it, t, calls, w.mem))
     f_alloc = ctx.index.method("alloc_ref", ctx.type_files["OgreArrayPoolAllocator"], "OgreArrayPoolAllocator")
     graphs.append(build_thread(it, T, [(f_alloc, [Ptr("a")], "alloc")] * (N + 1), w.mem))
-    S = sum(g.shortest_path() for g in graphs) + slack
+    S = sum(g.step_budget() for g in graphs) + slack
     b = BMC(graphs, w.mem, S, {"after_all": {T: True}, "heap_roots": ["in0"]})
     S = b.S
     allids = free_ids + [d]
@@ -917,7 +963,7 @@ def reservation_query(ctx, name, N, k, nprod, nrecv, slack, timeout_s):
     refill = [w.sym("refill%d" % i) for i in range(N)]
     refill = []        # (capacity restoration after reservations is decided by the sequential K harnesses; here only the drain)
     graphs.append(build_thread(it, T, [(f_consume, [ch, BV(32, 0)], "recv")] * N, w.mem))
-    S = sum(g.shortest_path() for g in graphs) + slack
+    S = sum(g.step_budget() for g in graphs) + slack
     b = BMC(graphs, w.mem, S, {"after_all": {T: True}})
     S = b.S
     allv = vals + pre + refill
@@ -981,7 +1027,7 @@ def reservation_query(ctx, name, N, k, nprod, nrecv, slack, timeout_s):
 
 
 def _c08_registry(add, tier, TO):
-    def q(name, qtier, N, k, nprod, nrecv, slack=7):
+    def q(name, qtier, N, k, nprod, nrecv, slack=0):
         add("C08", name, qtier, lambda ctx: reservation_query(ctx, name, N, k, nprod, nrecv, slack, TO))
     q("c08_reserve_vs_consumer_n2_k0", "quick", 2, 0, 1, 2)
     q("c08_reserve_vs_consumer_n2_k1", "quick", 2, 1, 1, 2)
@@ -989,4 +1035,471 @@ def _c08_registry(add, tier, TO):
     q("c08_reserve_vs_consumer_n4_k3", "thorough", 4, 3, 1, 3)
 
 
-EXTRA_REGISTRIES = [("C13", _c13_registry), ("C14", _c14_registry), ("C08", _c08_registry)]
+
+
+# =========================================================================================================
+# C18: the stand-alone atomic-flag stack (linearizable bounded LIFO)
+def stack_query(ctx, name, N, k, threads, slack, timeout_s):
+    consts = {"BUFFER_SIZE": N, "METRICS": False, "DEBUG": False}
+    w = World(ctx.index, ctx.type_files, consts, {"SlotType": "u32"})
+    sfile = "src/ogre_std/ogre_stacks/non_blocking_atomic_stack.rs"
+    f = {nm: i for i, nm in enumerate(layout.struct_fields(sfile, "Stack"))}
+    pre = [w.sym("pre%d" % i) for i in range(k)]
+    w.decl("s", (f["head"],), "plain", z3.BitVecSort(32), BV(32, k))
+    w.decl("s", (f["flag"],), "atomic", z3.BoolSort(), z3.BoolVal(False))
+    w.decl("s", (f["buffer"],), "array", z3.BitVecSort(32), [pre[j] if j < k else BV(32, POISON + j) for j in range(N)], n=N)
+    it = w.interp()
+    f_push = ctx.index.method("push", sfile); f_pop = ctx.index.method("pop", sfile)
+    sp = Ptr("s")
+    graphs = []; plan = []; vals = []
+    for t, prog in enumerate(threads):
+        calls = []
+        for j, op in enumerate(prog):
+            if op == "push":
+                v = w.sym("v%d_%d" % (t, j)); vals.append(v); calls.append((f_push, [sp, v], op)); plan.append((t, j, op, v))
+            else:
+                calls.append((f_pop, [sp], op)); plan.append((t, j, op, None))
+        graphs.append(build_thread(it, t, calls, w.mem))
+    S = sum(g.step_budget() for g in graphs) + slack
+    b = BMC(graphs, w.mem, S, {"real_time_order": True})
+    S = b.S
+    allv = vals + pre
+    cons = [allv[i] != allv[j] for i in range(len(allv)) for j in range(i + 1, len(allv))] + [z3.And(z3.UGE(v, BV(32, 0x1000)), z3.ULT(v, BV(32, POISON))) for v in allv]
+    for ta in range(len(threads)):
+        for tb in range(ta + 1, len(threads)):
+            if threads[ta] == threads[tb]: cons.append(z3.ULE(b.call_times(ta)[0][0], b.call_times(tb)[0][0]))
+    res = {}
+    for t in range(len(graphs)):
+        ops = [p[2] for p in plan if p[0] == t]
+        res[t] = b.results(t, lambda j, v, ops=ops: {"ok": v} if ops[j] == "push" else ex_option_u32(v))
+    oplist = []
+    for (t, j, op, v) in plan:
+        fs, ls = b.call_times(t)[j]
+        oplist.append({"thread": t, "first": fs, "last": ls, "kind": op, "arg": v, "res": res[t][j]})
+    maxlen = N
+    def step(st, op):
+        items, ln = st
+        if op["kind"] == "push":
+            room = z3.ULT(ln, BV(8, N))
+            ok = op["res"]["ok"] == room
+            return ok, ([z3.If(z3.And(room, ln == jj), op["arg"], items[jj]) for jj in range(maxlen)], z3.If(room, ln + 1, ln))
+        nonempty = ln != 0
+        top = items[0]
+        for jj in range(1, maxlen): top = z3.If(ln == jj + 1, items[jj], top)
+        ok = z3.And(op["res"]["some"] == nonempty, z3.Implies(nonempty, op["res"]["val"] == top))
+        return ok, (items, z3.If(nonempty, ln - 1, ln))
+    init = ([pre[i] if i < k else BV(32, 0) for i in range(maxlen)], BV(8, k))
+    lin, nperm = linearizable(oplist, init, step)
+    meta = {"threads": ["%d:%s" % (i, "+".join(p)) for i, p in enumerate(threads)], "oracle": "linearizable bounded LIFO (strict: full / empty answers need a full / empty stack at the linearization point)",
+            "bounds": "non_blocking_atomic_stack::Stack<u32,%d,false,false>, pre-filled %d, steps<=%d" % (N, k, S), "interleavings_of_spec": nperm}
+    violation = cons + [z3.Or(z3.And(b.all_done(), z3.Not(lin)), b.any_panic(), b.err[S])]
+    witness = cons + [b.all_done()]
+    meta["functions"] = sorted(set(x.split(">::")[-1] + " @" + (re.search(r"impl at (src/[^:]*)", x).group(1) if "impl at" in x else "") for x in it.functions_used))
+    meta["intrinsics"] = sorted(it.intrinsics_used)
+    rec, model = solve(name, b, violation, witness, timeout_s, ctx.workdir, meta)
+    if model is not None:
+        import replay
+        rec["trace"] = b.decode_schedule(model)
+        inp = {nm: model.eval(v, model_completion=True).as_long() for nm, v in w.inputs.items()}
+        rec["inputs"] = inp
+        rec["results"] = {"%d.%d" % (t, j): {kx: str(model.eval(vx, model_completion=True)) for kx, vx in res[t][j].items()} for t in res for j in range(len(res[t]))}
+        progs = [[("push:%d" % inp["v%d_%d" % (t, j)]) if op == "push" else "pop" for j, op in enumerate(prog)] for t, prog in enumerate(threads)]
+        prefill_vals = [inp["pre%d" % i] for i in range(k)]
+        segs = replay.segments_from_trace(rec["trace"])
+        def symptom(h):
+            if h["panics"]: return "panic: " + h["panics"][0]
+            if h["stuck"] or h["timeout"]: return None
+            by_t = {}
+            for e in h["events"]: by_t.setdefault(e["thread"], []).append(e)
+            for tt in by_t: by_t[tt].sort(key=lambda e: e["call"])
+            def rec_(pos, stack):
+                if all(pos[t] == len(by_t[t]) for t in by_t): return True
+                for t in by_t:
+                    if pos[t] == len(by_t[t]): continue
+                    e = by_t[t][pos[t]]
+                    if any(pos[u] < len(by_t[u]) and by_t[u][pos[u]]["last"] < e["first"] for u in by_t if u != t): continue
+                    s2 = list(stack)
+                    if e["op"] == "push":
+                        acc = e["res"][:2] == ["ok", "true"]
+                        if acc != (len(s2) < N): continue
+                        if acc: s2.append(e["arg"])
+                    else:
+                        if e["res"][0] == "some":
+                            if not s2 or s2[-1] != int(e["res"][1]): continue
+                            s2.pop()
+                        elif s2: continue
+                    p2 = dict(pos); p2[t] += 1
+                    if rec_(p2, s2): return True
+                return False
+            if rec_({t: 0 for t in by_t}, list(prefill_vals)): return None
+            return "history is not linearizable as a bounded LIFO: " + "; ".join("t%d %s(%s)->%s [%d,%d]" % (e["thread"], e["op"], e["arg"], " ".join(e["res"]), e["first"], e["last"]) for e in h["events"])
+        found, why, tried = replay.search("Stack", N, [0], prefill_vals, progs, [], segs, symptom)
+        rec["native_runs"] = tried
+        if found: rec.update(verdict="violation", symptom=found["symptom"], replayed=True, native_history=found["history"]["events"], native_segments=found["segments"])
+        else: rec.update(verdict="inconclusive", why="model counterexample did not reproduce natively: " + why)
+    return rec
+
+
+def _c18_registry(add, tier, TO):
+    def q(name, qtier, N, k, threads, slack=0):
+        add("C18", name, qtier, lambda ctx: stack_query(ctx, name, N, k, threads, slack, TO))
+    q("c18_stack_push_vs_pop_n2_k1", "quick", 2, 1, [["push", "pop"], ["pop", "push"]])
+    q("c18_stack_3thr_n2_k1", "quick", 2, 1, [["push"], ["pop"], ["pop"]])
+    q("c18_stack_full_boundary_n2_k2", "quick", 2, 2, [["push"], ["pop", "push"]])
+    q("c18_stack_3thr_n4_k2", "thorough", 4, 2, [["push", "pop"], ["pop", "push"], ["push"]])
+    q("c18_stack_2x3_n2_k1", "thorough", 2, 1, [["push", "pop", "push"], ["pop", "push", "pop"]], 2)
+    # the two non-blocking queues are the zero-copy rings behind a thin wrapper (enqueue = publish_movable, dequeue = consume): same MIR as C02's zero-copy queries
+    def lin(name, qtier, kind, N, k, threads, slack=2):
+        add("C18", name, qtier, lambda ctx: fifo_query(ctx, name, kind, N, k, threads, "linearizable", slack, TO, drain=False))
+    lin("c18_queue_atomic_lin_p_cc_n2_k1", "quick", "AtomicZeroCopy", 2, 1, [["send"], ["recv", "recv"]])
+    lin("c18_queue_fullsync_lin_p_cc_n2_k1", "quick", "FullSyncZeroCopy", 2, 1, [["send"], ["recv", "recv"]])
+    lin("c18_queue_atomic_lin_pp_c_c_n2_k1", "thorough", "AtomicZeroCopy", 2, 1, [["send", "send"], ["recv"], ["recv"]])
+
+
+
+
+# =========================================================================================================
+# C19: AtomicIncrementalAverage64 (count exact; (count, average) pairs consistent)
+def metric_query(ctx, name, threads, slack, timeout_s):
+    """threads: lists of 'inc' / 'probe'. Float arithmetic is abstracted (see Interp.float_op): the oracle replays the SAME abstract
+    update in every order of the recorded measurements."""
+    import itertools as _it
+    from interp import Interp as _I
+    w = World(ctx.index, ctx.type_files, {}, {})
+    mfile = ctx.type_files["AtomicIncrementalAverage64"]
+    uf = {nm: i for i, nm in enumerate(layout.struct_fields(mfile, "AtomicIncrementalAverage64"))}
+    w.decl("m", (uf["joined"],), "atomic", z3.BitVecSort(64), BV(64, 0))
+    it = w.interp()
+    f_inc = ctx.index.method("inc", mfile); f_probe = ctx.index.method("probe", mfile)
+    mp = Ptr("m")
+    graphs = []; plan = []; ms = []
+    for t, prog in enumerate(threads):
+        calls = []
+        for j, op in enumerate(prog):
+            if op == "inc":
+                v = w.sym("m%d_%d" % (t, j)); ms.append(v); calls.append((f_inc, [mp, v], op))
+            else: calls.append((f_probe, [mp], op))
+            plan.append((t, j, op))
+        graphs.append(build_thread(it, t, calls, w.mem))
+    S = sum(g.step_budget() for g in graphs) + slack
+    b = BMC(graphs, w.mem, S, {})
+    S = b.S
+    ONE = BV(32, 0x3F800000)
+    def upd(c, avg, m):
+        cf = c
+        d = _I.float_op("Add", ONE, cf)
+        return _I.float_op("Add", _I.float_op("Mul", _I.float_op("Div", cf, d), avg), _I.float_op("Div", m, d))
+    n = len(ms)
+    prefixes = {}        # j -> list of possible averages after j measurements (over all orders)
+    for perm in _it.permutations(range(n)):
+        avg = BV(32, 0)
+        for j, i in enumerate(perm):
+            avg = upd(BV(32, j), avg, ms[i])
+            prefixes.setdefault(j + 1, []).append(avg)
+    prefixes[0] = [BV(32, 0)]
+    final = b.memv[S][("m", (uf["joined"],))]
+    fcount = z3.Extract(31, 0, final); favg = z3.Extract(63, 32, final)
+    good = [fcount == n, z3.Or([favg == a for a in prefixes[n]])]
+    res = {}
+    for t in range(len(graphs)):
+        ops = [p[2] for p in plan if p[0] == t]
+        res[t] = b.results(t, lambda j, v, ops=ops: {"count": v.fields[0], "avg": v.fields[1]} if ops[j] == "probe" else {})
+    for (t, j, op) in plan:
+        if op == "probe":
+            r = res[t][j]
+            good.append(z3.Or([z3.And(r["count"] == c, z3.Or([r["avg"] == a for a in prefixes[c]])) for c in range(n + 1)]))
+    cons = [ms[i] != ms[j] for i in range(n) for j in range(i + 1, n)]
+    meta = {"threads": ["%d:%s" % (i, "+".join(p)) for i, p in enumerate(threads)],
+            "oracle": "final count == number of inc calls; final average and every probed (count, average) pair equal the update function folded over SOME order of the measurements (prefix of length count)",
+            "bounds": "AtomicIncrementalAverage64, %d measurements (distinct symbolic 32-bit words), steps<=%d; f32 arithmetic abstracted by bit-vector mixing functions" % (n, S)}
+    violation = cons + [z3.Or(z3.And(b.all_done(), z3.Not(z3.And(good))), b.any_panic(), b.err[S])]
+    witness = cons + [b.all_done()]
+    meta["functions"] = sorted(set(x.split(">::")[-1] + " @" + (re.search(r"impl at (src/[^:]*)", x).group(1) if "impl at" in x else "") for x in it.functions_used))
+    meta["intrinsics"] = sorted(it.intrinsics_used)
+    rec, model = solve(name, b, violation, witness, timeout_s, ctx.workdir, meta)
+    if model is not None:
+        import replay, struct, numpy as np
+        rec["trace"] = b.decode_schedule(model)
+        rec["model_final"] = {"count": str(model.eval(fcount, model_completion=True)), "avg_word": str(model.eval(favg, model_completion=True))}
+        # native replay with REAL floats: measurements 1.0, 2.0, 4.0 ... (distinct, exactly representable)
+        fl = {}
+        k = 0
+        progs = []
+        for t, prog in enumerate(threads):
+            p2 = []
+            for j, op in enumerate(prog):
+                if op == "inc":
+                    x = float(3 ** k); k += 1
+                    p2.append("inc:%d" % struct.unpack("<I", struct.pack("<f", x))[0]); fl[(t, j)] = x
+                else: p2.append("probe")
+            progs.append(p2)
+        xs = list(fl.values())
+        def fold(order):
+            avg = np.float32(0.0); out = [np.float32(0.0)]
+            for j, x in enumerate(order):
+                c = np.float32(j)
+                avg = (c / (np.float32(1.0) + c)) * avg + np.float32(x) / (np.float32(1.0) + c)
+                out.append(avg)
+            return out
+        folds = [fold(p) for p in _it.permutations(xs)]
+        def symptom(h):
+            if h["panics"]: return "panic: " + h["panics"][0]
+            if h["stuck"] or h["timeout"]: return None
+            pr = [e for e in h["events"] if e["op"] == "probe"]
+            fin = [e for e in pr if e["thread"] == len(threads)]
+            for e in pr:
+                c = int(e["res"][1]); a = np.uint32(int(e["res"][2])).view(np.float32)
+                if not any(c < len(f) and f[c] == a for f in folds): return "probe returned count %d with average %r, which is not the average of any %d of the recorded measurements %s" % (c, float(a), c, xs)
+            if fin and int(fin[-1]["res"][1]) != len(xs): return "final count %s != number of recorded measurements %d" % (fin[-1]["res"][1], len(xs))
+            return None
+        segs = replay.segments_from_trace(rec["trace"])
+        found, why, tried = replay.search("Metric", 2, [0], [], progs, ["probe"], segs, symptom)
+        rec["native_runs"] = tried
+        if found: rec.update(verdict="violation", symptom=found["symptom"], replayed=True, native_history=found["history"]["events"], native_segments=found["segments"])
+        else: rec.update(verdict="inconclusive", why="model counterexample (final %s) did not reproduce natively: %s" % (rec["model_final"], why))
+    return rec
+
+
+def _c19_registry(add, tier, TO):
+    def q(name, qtier, threads, slack=2):
+        add("C19", name, qtier, lambda ctx: metric_query(ctx, name, threads, slack, TO))
+    q("c19_two_writers_one_reader", "quick", [["inc"], ["inc"], ["probe", "probe"]])
+    q("c19_two_writers_two_each", "quick", [["inc", "inc"], ["inc"]])
+    q("c19_three_writers_one_reader", "thorough", [["inc"], ["inc"], ["inc"], ["probe", "probe"]])
+    q("c19_two_writers_two_each_reader", "thorough", [["inc", "inc"], ["inc", "inc"], ["probe"]])
+
+
+
+
+# =========================================================================================================
+# C16 / C20: bounded own steps -- no operation may spin on a thread that has already returned
+def progress_query(ctx, name, kind, N, k, holder, workers, timeout_s, expect_blocked=False):
+    """thread 0 (`holder`) performs its operations and RETURNS -- e.g. ['reserve'] models a send_with_async whose setter is suspended
+    (slot reserved, not yet published). The worker threads then run their operations. Violation: a worker is still not finished
+    although every other thread finished K steps earlier, K = the worker's longest acyclic path + 2 (a deterministic solo run that
+    long has revisited a program point: it spins)."""
+    w, q, ops, pre = fifo_object(ctx, kind, N, k)
+    it = w.interp()
+    def reserve_call():
+        if kind in ("AtomicMove", "FullSyncMove"):
+            f = fn_of(w, kind, "leak_slot_internal")
+            pm = fn_of(w, kind, "publish_movable")
+            clo = [x for x in ctx.index.closures.values() if x.name.startswith(pm.name + "::{closure#0}")]
+            if len(clo) != 1: raise EncodingError("report_full closure of publish_movable not found")
+            return (f, [q, Agg("closure", [], clo[0])], "reserve")
+        return (ctx.index.method("leak_slot", ctx.type_files[kind], kind), [q], "reserve")
+    def mk(prog, t):
+        calls = []
+        for j, op in enumerate(prog):
+            if op == "reserve": calls.append(reserve_call())
+            elif op == "send": calls.append((ops["send"][0], [q, w.sym("v%d_%d" % (t, j))], op))
+            else: calls.append((ops["recv"][0], [q], op))
+        return calls
+    graphs = [build_thread(it, 0, mk(holder, 0), w.mem)]
+    for i, prog in enumerate(workers): graphs.append(build_thread(it, i + 1, mk(prog, i + 1), w.mem))
+    Ks = [g.longest_path() + 2 for g in graphs]
+    S = sum(g.step_budget() for g in graphs) + max(Ks[1:])
+    b = BMC(graphs, w.mem, S, {"allow_stutter": True, "por": False})
+    S = b.S
+    stuck = []
+    for t in range(1, len(graphs)):
+        kt = min(Ks[t], S)
+        others_done = z3.And([b.is_kind(u, S - kt, "done") for u in range(len(graphs)) if u != t])
+        stuck.append(z3.And(others_done, z3.Not(b.is_kind(t, S, "done")), z3.Not(b.is_kind(t, S, "panic"))))
+    meta = {"threads": ["0:%s (returns, then stays away)" % "+".join(holder)] + ["%d:%s" % (i + 1, "+".join(p)) for i, p in enumerate(workers)],
+            "oracle": "every operation finishes within a bounded number of its OWN steps once all other threads have returned (no spinning on a returned / suspended thread)",
+            "bounds": "%s, BUFFER_SIZE=%d, pre-filled %d, origin any u32, steps<=%d, solo-run bounds %s" % (kind, N, k, S, Ks[1:])}
+    violation = [z3.Or(z3.Or(stuck), b.any_panic(), b.err[S])]
+    witness = [b.all_done()]
+    meta["functions"] = sorted(set(x.split(">::")[-1] + " @" + (re.search(r"impl at (src/[^:]*)", x).group(1) if "impl at" in x else "") for x in it.functions_used))
+    meta["intrinsics"] = sorted(it.intrinsics_used)
+    rec, model = solve(name, b, violation, witness, timeout_s, ctx.workdir, meta)
+    if model is not None:
+        import replay
+        rec["trace"] = b.decode_schedule(model)
+        inp = {nm: model.eval(v, model_completion=True).as_long() for nm, v in w.inputs.items()}
+        rec["inputs"] = inp
+        which = [t + 1 for t, c in enumerate(stuck) if z3.is_true(model.eval(c, model_completion=True))]
+        rec["model_stuck_threads"] = which
+        def conv(prog, t): return [("send:%d" % inp.get("v%d_%d" % (t, j), 7)) if op == "send" else op for j, op in enumerate(prog)]
+        progs = [conv(holder, 0)] + [conv(p, i + 1) for i, p in enumerate(workers)]
+        prefill_vals = [inp["pre%d" % i] for i in range(k)]
+        origins = [inp["origin"], inp.get("origin2", inp["origin"])]
+        if kind in ("AtomicZeroCopy", "FullSyncZeroCopy"): origins = [inp.get("origin2", 0), inp["origin"]]
+        segs = replay.segments_from_trace(rec["trace"])
+        def symptom(h):
+            if h["panics"]: return "panic: " + h["panics"][0]
+            if h["stuck"]: return "thread(s) %s never return: they spin although every other thread has returned" % h["stuck"]
+            if h["timeout"]: return "the native run does not terminate (a thread spins forever)"
+            return None
+        found, why, tried = replay.search(kind, N, origins, prefill_vals, progs, [], segs, symptom, max_runs=60)
+        rec["native_runs"] = tried
+        if found: rec.update(verdict="violation", symptom=found["symptom"], replayed=True, native_history=found["history"].get("events", []), native_segments=found["segments"])
+        else: rec.update(verdict="inconclusive", why="model counterexample (stuck threads %s) did not reproduce natively: %s" % (which, why))
+    return rec
+
+
+def _c16_registry(add, tier, TO):
+    def q(prop, name, qtier, kind, N, k, holder, workers):
+        add(prop, name, qtier, lambda ctx: progress_query(ctx, name, kind, N, k, holder, workers, TO))
+    # C16: rejected sends colliding at the 'full' boundary while a consumer makes room
+    q("C16", "c16_atomic_two_rejected_vs_consumer_n2", "quick", "AtomicMove", 2, 2, ["recv"], [["send"], ["send"]])
+    q("C16", "c16_atomic_rejected_vs_two_recv_n2", "quick", "AtomicMove", 2, 2, ["recv", "recv"], [["send"], ["send"]])
+    q("C16", "c16_fullsync_two_rejected_vs_consumer_n2", "quick", "FullSyncMove", 2, 2, ["recv"], [["send"], ["send"]])
+    q("C16", "c16_zc_atomic_rejected_vs_consumer_n2", "quick", "AtomicZeroCopy", 2, 2, ["recv"], [["send"], ["send"]])
+    q("C16", "c16_atomic_three_senders_n2", "thorough", "AtomicMove", 2, 2, ["recv", "recv"], [["send"], ["send"], ["send"]])
+    q("C16", "c16_zc_fullsync_rejected_vs_consumer_n2", "thorough", "FullSyncZeroCopy", 2, 2, ["recv"], [["send"], ["send"]])
+    # C20: a suspended send_with_async = a reserved, unpublished slot whose owner went away
+    q("C20", "c20_zc_atomic_suspended_vs_send_recv", "quick", "AtomicZeroCopy", 2, 0, ["reserve"], [["send"], ["recv"]])
+    q("C20", "c20_zc_fullsync_suspended_vs_send_recv", "quick", "FullSyncZeroCopy", 2, 0, ["reserve"], [["send"], ["recv"]])
+    q("C20", "c20_atomic_suspended_vs_recv", "quick", "AtomicMove", 2, 1, ["reserve"], [["recv"], ["recv"]])
+    q("C20", "c20_atomic_suspended_vs_send", "quick", "AtomicMove", 2, 0, ["reserve"], [["send"]])
+    q("C20", "c20_fullsync_suspended_vs_send", "quick", "FullSyncMove", 2, 0, ["reserve"], [["send"]])
+    q("C20", "c20_fullsync_suspended_vs_recv", "quick", "FullSyncMove", 2, 1, ["reserve"], [["recv"]])
+
+
+
+
+# =========================================================================================================
+# C04: no lost wake-up (producer entry points x MutinyStream::poll_next x StreamsManagerBase waker protocol)
+PRELUDE += """
+fn __verif::drive(_1: Pin<&mut MutinyStream>, _2: &mut Context) -> () {
+    let mut _0: ();
+    let mut _3: Poll<Option<u32>>;
+    let mut _4: isize;
+    let mut _5: isize;
+    let mut _6: ();
+
+    bb0: {
+        goto -> bb1;
+    }
+
+    bb1: {
+        _3 = @src/mutiny_stream.rs:poll_next(copy _1, copy _2) -> [return: bb2, unwind continue];
+    }
+
+    bb2: {
+        _4 = discriminant(_3);
+        switchInt(move _4) -> [0: bb3, otherwise: bb5];
+    }
+
+    bb3: {
+        _5 = discriminant(((_3 as Ready).0: Option<u32>));
+        switchInt(move _5) -> [0: bb4, otherwise: bb1];
+    }
+
+    bb4: {
+        return;
+    }
+
+    bb5: {
+        _6 = __verif::park(copy _2) -> [return: bb1, unwind continue];
+    }
+}
+"""
+UNI_FILES = {"uni_move_full_sync": ("src/uni/channels/movable/full_sync.rs", "FullSync", "FullSyncMove"),
+             "uni_move_atomic": ("src/uni/channels/movable/atomic.rs", "Atomic", "AtomicMove")}
+
+
+def uni_channel_world(ctx, chan, N, MS, k, registered):
+    """channel with ONE stream (id 0, task 0); `registered`: the stream has parked before (its waker sits in the wakers array)"""
+    cfile, cstruct, ring = UNI_FILES[chan]
+    consts = {"BUFFER_SIZE": N, "MAX_STREAMS": MS}
+    types = {"SlotType": "u32", "ItemType": "u32", "DerivedItemType": "u32", "ChannelConsumerType": "@" + cfile}
+    w = World(ctx.index, ctx.type_files, consts, types)
+    origin = w.sym("origin")
+    pre = [w.sym("pre%d" % i) for i in range(k)]
+    cf = {nm: i for i, nm in enumerate(layout.struct_fields(cfile, cstruct))}
+    ring_field = "channel" if "channel" in cf else "container"
+    if ring == "AtomicMove": w.atomic_move("ch", (cf[ring_field],), N, origin, pre)
+    else: w.full_sync_move("ch", (cf[ring_field], "*"), N, origin, pre)
+    sf = {nm: i for i, nm in enumerate(w.fields("StreamsManagerBase"))}
+    sm = (cf["streams_manager"],)
+    w.decl("ch", sm + (sf["wakers"], "*"), "array", z3.BitVecSort(8), [BV(8, 1 if (registered and j == 0) else 0) for j in range(MS)], n=MS)
+    w.mem[("ch", sm + (sf["wakers"], "*"))]["codec"] = "opt_waker"
+    w.decl("ch", sm + (sf["wakers_lock"],), "atomic", z3.BoolSort(), z3.BoolVal(False))
+    w.decl("ch", sm + (sf["keep_streams_running"], "*"), "array", z3.BoolSort(), [z3.BoolVal(j == 0) for j in range(MS)], n=MS)
+    # the stream object (private to the consumer task)
+    mf = {nm: i for i, nm in enumerate(layout.struct_fields("src/mutiny_stream.rs", "MutinyStream"))}
+    w.decl("st0", (mf["stream_id"],), "frozen", None, value=BV(32, 0))
+    w.decl("st0", (mf["events_source"],), "frozen", None, value=Ptr("ch"))
+    ring_base = (cf[ring_field],) if ring == "AtomicMove" else (cf[ring_field], "*")
+    return w, Ptr("ch"), pre, cfile, ring, ring_base
+
+
+def wake_query(ctx, name, chan, N, MS, k, producers, registered, timeout_s, slack=2):
+    """producers: list of thread programs over {'send'}; one consumer task drives the stream like an executor (poll, park when Pending,
+    re-poll when woken). Violation: all producers returned, the task is parked and not woken, yet an accepted event is pending."""
+    w, ch, pre, cfile, ring, ring_base = uni_channel_world(ctx, chan, N, MS, k, registered)
+    it = w.interp()
+    f_send = ctx.index.method("send", cfile)
+    graphs = []; vals = []
+    for t, prog in enumerate(producers):
+        calls = []
+        for j, op in enumerate(prog):
+            v = w.sym("v%d_%d" % (t, j)); vals.append(v); calls.append((f_send, [ch, v], "send"))
+        graphs.append(build_thread(it, t, calls, w.mem))
+    T = len(producers)
+    cx = Agg("Context", [Agg("Waker", [BV(8, 0)])])
+    graphs.append(build_thread(it, T, [(ctx.helper("drive"), [Ptr("st0"), cx], "drive")], w.mem))
+    cons_budget = 6 * (len(vals) + k) + 18
+    S = sum(g.step_budget() for g in graphs[:-1]) + cons_budget + slack
+    # a task that has parked before starts parked (not woken) unless events are already pending (then it was woken for them)
+    b = BMC(graphs, w.mem, S, {"tasks": 1, "woken_init": {0: bool(registered and k > 0)}})
+    S = b.S
+    fi = {nm: i for i, nm in enumerate(w.fields(ring))}
+    head = b.memv[S][("ch", ring_base + (fi["head"],))]; tail = b.memv[S][("ch", ring_base + (fi["tail"],))]
+    pending = tail - head
+    producers_done = z3.And([b.is_kind(t, S, "done") for t in range(T)])
+    lost = z3.And(producers_done, b.parked(T, S), pending != 0)
+    meta = {"threads": ["%d:%s" % (i, "+".join(p)) for i, p in enumerate(producers)] + ["%d:executor task: poll_next / park when Pending / re-poll when woken" % T],
+            "oracle": "no quiescent state with all producers returned, the stream's task parked and un-woken, and an accepted event still pending",
+            "bounds": "%s<u32,%d,%d>, 1 stream (%s), pre-filled %d, origin any u32, steps<=%d" % (chan, N, MS, "parked before: waker registered" if registered else "never polled before", k, S)}
+    violation = [z3.Or(lost, b.any_panic(), b.err[S])]
+    witness = [producers_done, b.parked(T, S), pending == 0]
+    meta["functions"] = sorted(set(x.split(">::")[-1] + " @" + (re.search(r"impl at (src/[^:]*)", x).group(1) if "impl at" in x else "") for x in it.functions_used))
+    meta["intrinsics"] = sorted(it.intrinsics_used)
+    rec, model = solve(name, b, violation, witness, timeout_s, ctx.workdir, meta)
+    if model is not None:
+        import replay
+        rec["trace"] = b.decode_schedule(model)
+        inp = {nm: model.eval(v, model_completion=True).as_long() for nm, v in w.inputs.items()}
+        rec["inputs"] = inp
+        rec["model_final"] = {"pending": str(model.eval(pending, model_completion=True)), "err": str(model.eval(b.err[S], model_completion=True))}
+        progs = [["send:%d" % inp["v%d_%d" % (t, j)] for j in range(len(prog))] for t, prog in enumerate(producers)] + [["drive"]]
+        prefill_vals = [inp["pre%d" % i] for i in range(k)]
+        segs = replay.segments_from_trace(rec["trace"])
+        def symptom(h):
+            if h["panics"]: return "panic: " + h["panics"][0]
+            fin = [e for e in h["events"] if e["op"] == "quiescent"]
+            if fin and fin[-1]["res"][:1] == ["lost"]: return "lost wake-up: producers returned, the stream is parked and was not woken, %s accepted event(s) pending" % fin[-1]["res"][1]
+            return None
+        kind = {"uni_move_full_sync": "StreamUniFullSync", "uni_move_atomic": "StreamUniAtomic"}[chan] + ("Parked" if registered else "Fresh")
+        found, why, tried = replay.search(kind, N, [inp["origin"]], prefill_vals, progs, [], segs, symptom, max_runs=250)
+        rec["native_runs"] = tried
+        if found: rec.update(verdict="violation", symptom=found["symptom"], replayed=True, native_history=found["history"].get("events", []), native_segments=found["segments"])
+        else: rec.update(verdict="inconclusive", why="model counterexample (%s) did not reproduce natively: %s" % (rec["model_final"], why))
+    return rec
+
+
+def _c04_registry(add, tier, TO):
+    def q(name, qtier, chan, N, MS, k, producers, registered, slack=2):
+        add("C04", name, qtier, lambda ctx: wake_query(ctx, name, chan, N, MS, k, producers, registered, TO, slack))
+    q("c04_full_sync_first_park_vs_send", "quick", "uni_move_full_sync", 2, 1, 0, [["send"]], False)
+    q("c04_full_sync_parked_vs_send", "quick", "uni_move_full_sync", 2, 1, 0, [["send"]], True)
+    q("c04_atomic_first_park_vs_send", "quick", "uni_move_atomic", 2, 1, 0, [["send"]], False)
+    q("c04_atomic_parked_vs_two_sends", "quick", "uni_move_atomic", 2, 1, 0, [["send", "send"]], True)
+    q("c04_full_sync_parked_vs_two_producers", "thorough", "uni_move_full_sync", 2, 1, 0, [["send"], ["send"]], True)
+    q("c04_atomic_parked_vs_three_sends_n4", "thorough", "uni_move_atomic", 4, 1, 0, [["send", "send", "send"]], True)
+
+
+def _c05_registry(add, tier, TO):
+    def q(name, qtier, container, N, threads, slack=3):
+        add("C05", name, qtier, lambda ctx: arc_query(ctx, name, container, N, threads, slack, TO))
+    q("c05_arc_last_two_drops", "quick", "AtomicMove", 2, [["read", "drop"], ["drop"]])
+    q("c05_arc_clone_drop_vs_drop", "quick", "AtomicMove", 2, [["clone_drop", "drop"], ["read", "drop"]])
+    q("c05_arc_three_droppers", "thorough", "AtomicMove", 2, [["drop"], ["drop"], ["read", "drop"]])
+    q("c05_arc_fullsync_last_two_drops", "thorough", "FullSyncMove", 2, [["read", "drop"], ["drop"]])
+
+
+EXTRA_REGISTRIES = [("C13", _c13_registry), ("C14", _c14_registry), ("C08", _c08_registry), ("C18", _c18_registry), ("C19", _c19_registry), ("C16", _c16_registry), ("C04", _c04_registry), ("C05", _c05_registry)]
